@@ -18,6 +18,17 @@ Streams
                 an identifier the host already knows with another meaning (host declares a namesake /
                 `only: hostname => remote` / rename without ONLY), where use association must hide host
                 association (F2018 19.5.1.4; model `runN`, theorem nested_tables_exact_partial).
+            (d) binding (round 4): which module a USE statement refers to.  Project modules are also
+                called like the entries of `settings.extra_mods` (the built-in iso_fortran_env, omp_lib,
+                mpi, ... stubs and entries the project adds itself), spelled in any case, and are used
+                plain, with `non_intrinsic` and - for the standard's intrinsic names - with `intrinsic`
+                (which must NOT refer to the project's module, F2018 14.2.2).  Oracle: the USE is bound to
+                the project's own module (observed `uses` of the scope) and imports from it; model
+                `bindName` / `bindG` (lean/FordModel/UseBind.lean), micro stream `c06.bind` against the
+                real `find_used_modules`.
+            (e) interface bodies (round 4): bodies of unnamed, generic and abstract interface blocks with USE
+                statements of their own and dummy arguments of an imported type - scopes without host
+                association; external subroutines and contained procedures of programs.
             (c) order: FORD's correlation order is a topological order, USE statements of contained
                 procedures included (model `isTopo` / `isTopoN`);
                 same tables for every permutation of the file order (all permutations for a
@@ -45,7 +56,27 @@ F_EMPTY = "C06-empty-only-imports-all"
 F_PRIV = "C06-private-imported-reexported"
 F_TWICE = "C06-only-remote-listed-twice"
 F_PROT = "C06-protected-private-exported"
-ALL_FEATURES = (F_RENAME, F_EMPTY, F_PRIV, F_TWICE, F_PROT)
+F_INTR = "C06-intrinsic-nature-binds-project-module"
+F_ABSUSE = "C06-abstract-interface-body-use-unbound"
+F_GENDEP = "C06-generic-interface-body-use-not-a-dependency"
+ALL_FEATURES = (F_RENAME, F_EMPTY, F_PRIV, F_TWICE, F_PROT, F_INTR, F_ABSUSE, F_GENDEP)
+
+# F2018 16.10.2 / 17.2 / 18.2: the intrinsic modules of the standard (a processor may add others).  A
+# USE statement with module nature INTRINSIC is generated only for these names.
+STD_INTRINSIC = ("iso_fortran_env", "iso_c_binding", "ieee_arithmetic", "ieee_exceptions", "ieee_features")
+# names of the ExternalModule stubs every project gets (keys of ProjectSettings().extra_mods of the
+# working tree, read at run time by `run`; this is only the fall-back when that fails)
+EXT_POOL = list(STD_INTRINSIC)
+
+
+def refers_to_project(u, mods, sw=frozenset()):
+    """F2018 14.2.2: does USE statement `u` refer to the (nonintrinsic) module of the project called
+    u["mod"]?  Without module nature, or with NON_INTRINSIC: yes when the project has such a module
+    (a name that is both intrinsic and nonintrinsic refers to the nonintrinsic module); with
+    INTRINSIC: never.  `sw`: defects to emulate."""
+    if u["mod"] not in mods:
+        return False
+    return u.get("nature") != "intrinsic" or F_INTR in sw
 
 
 def decl_accs(d):
@@ -103,7 +134,15 @@ def admitted_locals(use, remote, sw):
     return locs if locs else {remote}
 
 
-def spec_tables(graph, sw=frozenset()):
+def root_of(graph, n):
+    """the module / program whose `correlate` reaches the contained procedure or interface body `n`"""
+    by = {x["name"]: x for x in graph.get("nested", [])}
+    while n in by:
+        n = by[n]["host"]
+    return n
+
+
+def spec_tables(graph, sw=frozenset(), order=None):
     """Least fixpoint of
          sees(S,k,n,e)    <- S declares e=(S,n) of kind k
          sees(S,k,l,e)    <- S uses N through u, exports(N,k,r,e), l in admitted(u,r)
@@ -116,8 +155,24 @@ def spec_tables(graph, sw=frozenset()):
                              declared in P nor of an entity P obtains by USE (of ANY kind:
                              class-1 identifiers share one namespace) - a local or
                              use-associated identifier hides the host's.
+       The body of an interface block (`ibody`) is a scope of its own WITHOUT host association
+       (F2018 19.5.1.4: "an interface body ... has access to entities from its host only via IMPORT"):
+       it sees exactly what its USE statements give it.
+       Defect emulation only: F_ABSUSE - the USE statements of abstract interface bodies are ignored;
+       F_GENDEP with `order` (the order in which the implementation correlated the modules) - a USE in a
+       body of a generic interface whose root module was correlated before the used module sees only
+       what that module declares itself, not yet what it re-exports.
     returns {scope: {k: {"all": {name: set(ent)}, "pub": {...}}}}"""
     scopes = {s["name"]: s for s in graph["scopes"] + graph.get("nested", [])}
+    pos = {n: i for i, n in enumerate(order or [])}
+    early = set()  # (scope, used module): import from the declared exports only
+    if F_GENDEP in sw and order:
+        for s in graph.get("nested", []):
+            if s.get("ibody") == "generic":
+                r = root_of(graph, s["name"])
+                for u in s["uses"]:
+                    if r in pos and u["mod"] in pos and pos[r] < pos[u["mod"]]:
+                        early.add((s["name"], u["mod"]))
     mods = {n for n, s in scopes.items() if s["is_mod"]}
     sees = {n: [dict() for _ in range(4)] for n in scopes}
     imps = {n: [dict() for _ in range(4)] for n in scopes}
@@ -137,15 +192,19 @@ def spec_tables(graph, sw=frozenset()):
             accessible = std_accessible(d, s["def_pub"]) or (F_PROT in sw and protected_over_private(d, s["def_pub"]))
             if s["is_mod"] and accessible:
                 add(exps[n][d["kind"]], d["name"], ent)
+    exps0 = {n: [{nm: set(es) for nm, es in t.items()} for t in per] for n, per in exps.items()}
     changed = True
     while changed:
         changed = False
         for n, s in scopes.items():
             for u in s["uses"]:
-                if u["mod"] not in mods:
+                if not refers_to_project(u, mods, sw):
                     continue
+                if s.get("ibody") == "abstract" and F_ABSUSE in sw:
+                    continue
+                src = exps0 if (n, u["mod"]) in early else exps
                 for k in range(4):
-                    for r, ents in list(exps[u["mod"]][k].items()):
+                    for r, ents in list(src[u["mod"]][k].items()):
                         for l in admitted_locals(u, r, sw):
                             for e in list(ents):
                                 if add(imps[n][k], l, e):
@@ -164,7 +223,7 @@ def spec_tables(graph, sw=frozenset()):
     # host association, outermost first (graph["nested"] lists a host before its children)
     for s in graph.get("nested", []):
         n, h = s["name"], s.get("host")
-        if not h or h not in sees:
+        if not h or h not in sees or s.get("ibody"):
             continue
         hidden = {d["name"] for d in s["decls"]} | {l for k in range(4) for l in imps[n][k]}
         for k in range(4):
@@ -197,6 +256,12 @@ def features(graph):
         for u in s["uses"]:
             if u["mod"] not in mods:
                 continue
+            if u.get("nature") == "intrinsic":
+                f.add(F_INTR)
+            if s.get("ibody") == "abstract":
+                f.add(F_ABSUSE)
+            if s.get("ibody") == "generic" and root_of(graph, s["name"]) in mods:
+                f.add(F_GENDEP)
             if not u["only"] and u["items"]:
                 f.add(F_RENAME)
             if u["only"] and not u["items"]:
@@ -247,12 +312,12 @@ def render_use(rng, u):
     form = rng.random()
     mod = rnd_case(rng, u["mod"])
     kw = rnd_case(rng, "use")
-    if form < 0.7:
+    if u.get("nature"):
+        head = f"{kw}{sp(rng)},{sp(rng)}{rnd_case(rng, u['nature'])}{sp(rng)}::{sp(rng)}{mod}"
+    elif form < 0.8:
         head = f"{kw}{sp(rng, False)}{mod}"
-    elif form < 0.85:
-        head = f"{kw}{sp(rng)}::{sp(rng)}{mod}"
     else:
-        head = f"{kw}{sp(rng)},{sp(rng)}{rnd_case(rng, 'non_intrinsic')}{sp(rng)}::{sp(rng)}{mod}"
+        head = f"{kw}{sp(rng)}::{sp(rng)}{mod}"
     items = []
     for l, r in u["items"]:
         if l == r and not u.get("force_arrow"):
@@ -280,13 +345,38 @@ def gen_graph(rng, idx, hist):
     exported = {}  # module -> {k: set(names)} per the standard (kept incrementally for name choice)
     clashy = rng.random() < 0.06
     defects = rng.random() < 0.30  # allow known-defect forms in this project
-    total = nmod + (1 if with_prog else 0)
+    # the scopes that are not modules: an external (top-level) subroutine and / or a main program; FORD
+    # appends both to the list of containers after the ordered modules
+    others = (["subroutine"] if rng.random() < 0.25 else []) + (["program"] if with_prog else [])
+    total = nmod + len(others)
+    final, extra_mods = gen_names(rng, nmod, hist)
+    natures = {}  # (index of the root scope, index of the used module) -> module nature of every such USE
+
+    def nature_of(i, j):
+        """one module nature per (module or program with its contained procedures, used module): a
+        scoping unit shall not access an intrinsic and a nonintrinsic module of the same name"""
+        if (i, j) not in natures:
+            r = rng.random()
+            if final[f"m{j}"] in STD_INTRINSIC and defects and r < 0.5:
+                natures[i, j] = "intrinsic"  # refers to the intrinsic module, not to the project's (known defect)
+            else:
+                natures[i, j] = "non_intrinsic" if r < 0.65 and final[f"m{j}"] in EXT_POOL or r < 0.12 else None
+            if final[f"m{j}"] in EXT_POOL or final[f"m{j}"] in {k.lower() for k in extra_mods}:
+                key = f"use-of-module-named-like-extra_mods-entry:{natures[i, j] or 'no-nature'}"
+                hist[key] = hist.get(key, 0) + 1
+        return natures[i, j]
+
+    taken_names = set(final.values())
+    unknown_pool = [n for n in EXT_POOL + [k.lower() for k in extra_mods] + ["nosuchmod"] if n not in taken_names]
     for i in range(total):
         is_mod = i < nmod
-        name = f"m{i}" if is_mod else "prog"
+        unit = "module" if is_mod else others[i - nmod]
+        name = f"m{i}" if is_mod else "prog" if unit == "program" else f"nxt{i}"
         def_pub = rng.random() < 0.6 if is_mod else True
         s = {"name": name, "is_mod": is_mod, "def_pub": def_pub, "decls": [], "uses": [],
-             "pub_names": [], "priv_names": [], "calls": []}
+             "pub_names": [], "priv_names": [], "calls": [], "unit": unit}
+        if unit == "subroutine":
+            hist["scope:external-subroutine"] = hist.get("scope:external-subroutine", 0) + 1
         # ---- uses
         if i > 0:
             avail = list(range(min(i, nmod)))
@@ -296,13 +386,16 @@ def gen_graph(rng, idx, hist):
                 used = rng.sample(avail, 2)
             else:
                 used = rng.sample(avail, rng.randint(0 if i < total - 1 else 1, min(3, len(avail))))
-            if rng.random() < 0.05:
-                s["uses"].append({"mod": "iso_fortran_env", "only": False, "items": []})  # not in project
+            if rng.random() < 0.08 and unknown_pool:  # a module that is not in the project (stub / unknown)
+                un = rng.choice(unknown_pool)
+                s["uses"].append({"mod": un, "only": False, "items": [],
+                                  "nature": rng.choice(["intrinsic", None]) if un in STD_INTRINSIC else None})
             for j in used:
                 m = f"m{j}"
                 nstm = 2 if rng.random() < 0.2 else 1
                 for _ in range(nstm):
                     s["uses"].append(gen_use(rng, m, exported[m], i, len(s["uses"]), defects, clashy, scopes[j]))
+                    s["uses"][-1]["nature"] = nature_of(i, j)
         # ---- imported names so far (standard), to place access statements
         graph_so_far = {"scopes": scopes + [s]}
         spec = spec_tables(graph_so_far)
@@ -332,7 +425,8 @@ def gen_graph(rng, idx, hist):
                 s["pub_names"] = [x for x in s["pub_names"] if x != dn]
                 s["priv_names"] = [x for x in s["priv_names"] if x != dn]
             d = {"name": dn, "kind": kind, "accs": gen_accs(rng, kind, def_pub, defects, hist) if is_mod else [],
-                 "form": rng.choice(["sub", "fun", "gen"]) if kind == K_PROC else "", "ref": None}
+                 "form": rng.choice(["sub", "fun", "gen", "ifc"] if not clashy else ["sub", "fun", "gen"]) if kind == K_PROC else "",
+                 "ref": None}
             s["decls"].append(d)
         # ---- references through imported names (types of variables, extends, calls)
         tnames = sorted(spec[name][K_TYPE]["all"])
@@ -357,7 +451,7 @@ def gen_graph(rng, idx, hist):
             # (names the known defect classes would make visible here are avoided as well, so that
             #  the namesake never collides with a spuriously imported entity)
             taken = set(imported) | {d["name"] for d in s["decls"]}
-            for sw in SWITCH_SETS:
+            for sw in switch_sets(graph_so_far):
                 loose = spec_tables(graph_so_far, sw)
                 taken |= {n for k in range(4) for n in loose[name][k]["all"]}
             cands = [(j, k, r) for j in range(i) if f"m{j}" not in used_here
@@ -367,21 +461,56 @@ def gen_graph(rng, idx, hist):
                 j, k, r = rng.choice(cands)
                 # (always private: a public namesake would only make later modules ambiguous)
                 s["decls"].append({"name": r, "kind": k, "accs": [["r", k in (K_VAR, K_TYPE) and rng.random() < 0.5]],
-                                   "form": rng.choice(["sub", "fun"]) if k == K_PROC else "", "ref": None})
+                                   "form": rng.choice(["sub", "fun"]) if k == K_PROC else "", "ref": None, "twin": True})
                 twin = (j, k, r)
                 hist["twin-decl:" + KIND_LETTER[k]] = hist.get("twin-decl:" + KIND_LETTER[k], 0) + 1
         scopes.append(s)
         if is_mod:
             spec = spec_tables({"scopes": scopes})
             exported[name] = {k: sorted(spec[name][k]["pub"]) for k in range(4)}
-        if is_mod and i >= 1 and not clashy and (twin or rng.random() < 0.4):
-            gen_nested(rng, i, s, scopes, nested, exported, defects, hist, twin)
+        if i >= 1 and not clashy and (twin or rng.random() < (0.4 if is_mod else 0.25)):
+            gen_nested(rng, i, s, scopes, nested, exported, defects, hist, twin, nature_of, nmod)
+        if i >= 1 and not clashy:
+            gen_bodies(rng, i, s, scopes, nested, exported, defects, hist, nature_of, min(i, nmod))
     hist["shape:" + shape] = hist.get("shape:" + shape, 0) + 1
     hist[f"modules:{nmod}"] = hist.get(f"modules:{nmod}", 0) + 1
-    return {"id": idx, "scopes": scopes, "nested": nested}
+    return {"id": idx, "scopes": scopes, "nested": nested, "final_names": final, "extra_mods": extra_mods}
 
 
-SWITCH_SETS = [frozenset(c) for r in range(len(ALL_FEATURES) + 1) for c in itertools.combinations(ALL_FEATURES, r)]
+def gen_names(rng, nmod, hist):
+    """final names of the modules m0..m<n-1> (permuted, so that alphabetical order - toposort's
+    tie-break - is unrelated to the dependency order) and the project's own `extra_mods` setting.
+    Some modules are called like an ExternalModule stub that FORD keeps next to the project's modules:
+    a built-in entry of extra_mods (the project ships its own omp_lib / mpi / iso_fortran_env ...) or
+    an entry the project configured itself."""
+    names = [f"m{j}" for j in range(nmod)]
+    shuffled = list(names)
+    rng.shuffle(shuffled)
+    final = dict(zip(names, shuffled))
+    extra_mods = {}
+    r = rng.random()
+    if r < 0.30:
+        for m, n in zip(rng.sample(names, min(nmod, rng.choice([1, 1, 2]))), rng.sample(EXT_POOL, 2)):
+            final[m] = n
+            hist["module-named-like:built-in-extra_mods-entry"] = hist.get("module-named-like:built-in-extra_mods-entry", 0) + 1
+    if rng.random() < 0.15:
+        for q in range(rng.choice([1, 1, 2])):
+            if rng.random() < 0.6:
+                n = rnd_case(rng, final[rng.choice(names)])  # the project lists one of its own modules
+                hist["module-named-like:configured-extra_mods-entry"] = hist.get("module-named-like:configured-extra_mods-entry", 0) + 1
+            else:
+                n = rnd_case(rng, f"xlib{q}")
+            if n.lower() not in {k.lower() for k in extra_mods}:
+                extra_mods[n] = f"https://example.org/{n.lower()}"
+    return final, extra_mods
+
+
+def switch_sets(graph):
+    """every combination of the known defect classes that are PRESENT in the project (a switch whose
+    class is absent changes nothing; F_GENDEP needs the implementation's order and only removes names)"""
+    feats = sorted(features(graph) - {F_GENDEP})
+    return [frozenset(c) for r in range(len(feats) + 1) for c in itertools.combinations(feats, r)]
+
 
 
 def gen_accs(rng, kind, def_pub, defects, hist):
@@ -432,10 +561,10 @@ def own_clash(spec, name):
 def own_clash_any(graph, name):
     """... by the standard's rules or under any combination of the known defect classes (the
     classification of a failing project needs single-valued tables for each of them)"""
-    return any(own_clash(spec_tables(graph, sw), name) for sw in SWITCH_SETS)
+    return any(own_clash(spec_tables(graph, sw), name) for sw in switch_sets(graph))
 
 
-def gen_nested(rng, i, s, scopes, nested, exported, defects, hist, twin=None):
+def gen_nested(rng, i, s, scopes, nested, exported, defects, hist, twin=None, nature_of=lambda i, j: None, navail=None):
     """module procedure n<i>a (and, mostly, its internal procedure n<i>b) with USE statements of
     their own: the module then depends on those modules only through get_deps' recursion.
     About half of these USE statements import an entity under an identifier that is already
@@ -457,7 +586,7 @@ def gen_nested(rng, i, s, scopes, nested, exported, defects, hist, twin=None):
         nested.append(ns)
         (s if lv == 0 else nested[-2])["decls"].append(
             {"name": nm, "kind": K_PROC, "accs": [], "form": "sub", "ref": None, "inner": nm})
-        cands = [j for j in range(i)]
+        cands = [j for j in range(i if navail is None else min(i, navail))]
         fresh = [j for j in cands if f"m{j}" not in used_at_module_level]
         deepest = lv == levels - 1
         nuse = 0
@@ -465,7 +594,7 @@ def gen_nested(rng, i, s, scopes, nested, exported, defects, hist, twin=None):
             # the module whose entity has a namesake in the host module, in a form that admits it
             j, k, r = twin
             exp = exported[f"m{j}"]
-            u = {"mod": f"m{j}", "only": False, "items": []}
+            u = {"mod": f"m{j}", "only": False, "items": [], "nature": nature_of(i, j)}
             if rng.random() < 0.6:
                 others = sorted({n for kk in range(4) for n in exp[kk]} - {r})
                 u["only"] = True
@@ -478,6 +607,7 @@ def gen_nested(rng, i, s, scopes, nested, exported, defects, hist, twin=None):
             for t in range(rng.choice([1, 1, 1, 2]) - nuse):
                 j = rng.choice(fresh) if fresh and rng.random() < 0.7 else rng.choice(cands)
                 u = gen_use(rng, f"m{j}", exported[f"m{j}"], i, 7 + 2 * lv + t, defects, False, scopes[j])
+                u["nature"] = nature_of(i, j)
                 ns["uses"].append(u)
                 nuse += 1
                 if own_clash_any({"scopes": scopes, "nested": nested}, nm):
@@ -510,6 +640,49 @@ def gen_nested(rng, i, s, scopes, nested, exported, defects, hist, twin=None):
         for _ in range(rng.randint(0, 2) if deepest else rng.randint(0, 1)):
             if pn:
                 ns["calls"].append(rng.choice(pn_d) if pn_d and rng.random() < 0.6 else rng.choice(pn))
+
+
+def gen_bodies(rng, i, s, scopes, nested, exported, defects, hist, nature_of, navail):
+    """USE statements inside interface bodies: of an (unnamed) interface block, of a generic interface
+    and of an abstract interface declared in scope `s`.  Each such body is a scope of its own: it
+    obtains names ONLY through its USE statements (no host association without IMPORT); a dummy
+    argument is declared with a type it imports.  `find_used_modules` and `get_deps` have to reach
+    these statements through `entity.interfaces` / the interface's routines."""
+    for d in list(s["decls"]):
+        if d.get("inner") or d.get("twin") or not (d["kind"] == K_ABS or (d["kind"] == K_PROC and d["form"] in ("gen", "ifc"))):
+            continue
+        if rng.random() > 0.4:
+            continue
+        sort = "abstract" if d["kind"] == K_ABS else "generic" if d["form"] == "gen" else "plain"
+        if sort == "abstract" and not defects:
+            continue  # the unchanged code never binds these (known defect form)
+        if sort == "generic" and s["is_mod"] and not defects and rng.random() < 0.5:
+            continue
+        nm = d["name"] + "_impl" if sort == "generic" else d["name"]
+        ns = {"name": nm, "is_mod": False, "def_pub": True, "host": s["name"], "decls": [], "uses": [],
+              "pub_names": [], "priv_names": [], "calls": [], "level": 1, "ibody": sort, "argrefs": []}
+        nested.append(ns)
+        used_here = {u["mod"] for u in s["uses"]}
+        cands = list(range(navail))
+        fresh = [j for j in cands if f"m{j}" not in used_here]
+        for t in range(rng.choice([1, 1, 2])):
+            j = rng.choice(fresh) if fresh and rng.random() < 0.6 else rng.choice(cands)
+            u = gen_use(rng, f"m{j}", exported[f"m{j}"], i, 20 + 3 * len(nested) + t, defects, False, scopes[j])
+            u["nature"] = nature_of(i, j)
+            ns["uses"].append(u)
+            if own_clash_any({"scopes": scopes, "nested": nested}, nm):
+                ns["uses"].pop()
+        if not ns["uses"]:
+            nested.pop()
+            continue
+        d["body"] = nm
+        spec = spec_tables({"scopes": scopes, "nested": nested})
+        tn = sorted(spec[nm][K_TYPE]["all"])
+        for q in range(rng.randint(0, 2)):
+            if tn:
+                ns["argrefs"].append(rng.choice(tn))
+        key = f"interface-body-with-use:{sort}/{'module' if s['is_mod'] else 'program'}"
+        hist[key] = hist.get(key, 0) + 1
 
 
 def shadow_by_rename(rng, u, ns, scopes, nested, exported, defects, bump):
@@ -632,9 +805,32 @@ def render_proc(rng, ns, nested, ind):
     return L
 
 
+def render_body(rng, d, nested, ind, head="subroutine"):
+    """interface body of declaration `d`: `subroutine name(args)` with the USE statements and typed
+    dummy arguments of its scope (if it has one)"""
+    nm = d["name"] + "_impl" if d["form"] == "gen" else d["name"]
+    b = next((x for x in nested if x["name"] == d.get("body")), None)
+    if b is None:
+        if d["form"] == "gen":
+            return [f"{ind}subroutine {nm}(x)", f"{ind}  integer :: x", f"{ind}end subroutine {nm}"]
+        return [f"{ind}subroutine {nm}()", f"{ind}end subroutine {nm}"]
+    args = [f"x{q}" for q in range(len(b["argrefs"]))] or (["x"] if d["form"] == "gen" else [])
+    L = [f"{ind}subroutine {nm}({', '.join(args)})"]
+    for u in b["uses"]:
+        L.append(f"{ind}  " + (u.get("stmt") or render_use(rng, u)))
+    if not b["argrefs"] and args:
+        L.append(f"{ind}  integer :: x")
+    for a, t in zip(args, b["argrefs"]):
+        L.append(f"{ind}  type({rnd_case(rng, t)}) :: {a}")
+    L.append(f"{ind}end subroutine {nm}")
+    return L
+
+
 def render_scope(rng, s, nested=()):
     L = []
-    L.append(f"module {s['name']}" if s["is_mod"] else f"program {s['name']}")
+    unit = s.get("unit") or ("module" if s["is_mod"] else "program")
+    L.append(f"module {s.get('decl_name', s['name'])}" if s["is_mod"] else
+             f"program {s['name']}" if unit == "program" else f"subroutine {s['name']}()")
     for u in s["uses"]:
         L.append("  " + (u.get("stmt") or render_use(rng, u)))
     L.append("  implicit none")
@@ -665,7 +861,9 @@ def render_scope(rng, s, nested=()):
             ext = f", extends({rnd_case(rng, d['ref'])})" if d["ref"] else ""
             body += [f"  type{inline}{ext} :: {n}", "    integer :: c_" + n, f"  end type {n}"]
         elif d["kind"] == K_ABS:
-            body += ["  abstract interface", f"    subroutine {n}()", f"    end subroutine {n}", "  end interface"]
+            body += ["  abstract interface"] + render_body(rng, d, nested, "    ") + ["  end interface"]
+        elif d["form"] == "ifc":  # unnamed interface block: explicit interface of an external procedure
+            body += ["  interface"] + render_body(rng, d, nested, "    ") + ["  end interface"]
         elif d.get("inner"):
             contains += render_proc(rng, next(x for x in nested if x["name"] == d["inner"]), nested, "  ")
         elif d["form"] == "sub":
@@ -673,8 +871,7 @@ def render_scope(rng, s, nested=()):
         elif d["form"] == "fun":
             contains += [f"  integer function {n}()", f"    {n} = 1", f"  end function {n}"]
         else:  # generic interface with an external-body specific
-            body += [f"  interface {n}", f"    subroutine {n}_impl(x)", "      integer :: x", f"    end subroutine {n}_impl",
-                     "  end interface"]
+            body += [f"  interface {n}"] + render_body(rng, d, nested, "    ") + ["  end interface"]
     # access statements in random order, except that the statements about one entity keep theirs
     # (FORD applies them in source order and the keyword met last stays in its `permission`)
     mixed = [(None, 0, t) for t in stmts] + own
@@ -688,31 +885,32 @@ def render_scope(rng, s, nested=()):
         L.append(f"  call {rnd_case(rng, c)}()")
     if contains:
         L += ["contains"] + contains
-    L.append(f"end module {s['name']}" if s["is_mod"] else f"end program {s['name']}")
+    L.append(f"end module {rnd_case(rng, s['name'])}" if s["is_mod"] else f"end {unit} {s['name']}")
     return "\n".join(L) + "\n"
 
 
-def model_fields(s):
+def model_fields(s, decl=None):
     flags = ("M" if s["is_mod"] else "P") + ("U" if s["def_pub"] else "R")
     decls = []
     # dict order of FORD's all_procs: functions, subroutines, then (generic) interfaces; the other
     # kinds keep source order.  Only observable when an only-list maps two remote names to one local.
-    rank = {"fun": 0, "sub": 1, "gen": 2}
+    rank = {"fun": 0, "sub": 1, "gen": 2, "ifc": 2}
     for d in sorted(s["decls"], key=lambda d: rank.get(d["form"], 0) if d["kind"] == K_PROC else 0):
         decls.append(f"{d['name']}:{d['kind']}:{acc_letters(d) or '-'}")
-    return [s["name"], flags, " ".join(s["pub_names"]), " ".join(s["priv_names"]), " ".join(decls),
+    return [(decl or {}).get(s["name"], s["name"]), flags, " ".join(s["pub_names"]), " ".join(s["priv_names"]), " ".join(decls),
             str(len(s["uses"]))] + [u["stmt"] for u in s["uses"]]
 
 
-def nested_spec(graph):
+def nested_spec(graph, decl=None):
     """`root:host:name` of every contained procedure, hosts before their children"""
     by = {n["name"]: n for n in graph.get("nested", [])}
+    decl = decl or {}
     out = []
     for n in graph.get("nested", []):
         root = n["host"]
         while root in by:
             root = by[root]["host"]
-        out.append(f"{root}:{n['host']}:{n['name']}")
+        out.append(f"{decl.get(root, root)}:{decl.get(n['host'], n['host'])}:{n['name']}" + (":i" if n.get("ibody") else ""))
     return " ".join(out)
 
 
@@ -738,13 +936,26 @@ class Impl:
             if isinstance(q, self.sf.FortranProcedure) and q.name.lower().startswith("n"):
                 break
             q = getattr(q, "parent", None)
+        if q is None:  # (an interface body that lost its place in the tree)
+            return "?"
         return q.name.lower() if q is not None else "?"
 
     def ent(self, o):
         return f"{self.home(o)}.{o.name.lower()}"
 
-    def run(self, d: Path, files: list[Path]):
-        """Project over `files` in exactly this order; returns observation dict."""
+    def bodies_of(self, host, wanted):
+        """procedures that are bodies of interface blocks declared in `host` (unnamed, generic, abstract)"""
+        out = []
+        for itf in list(getattr(host, "interfaces", None) or []) + list(getattr(host, "absinterfaces", None) or []):
+            procs = [itf.procedure] if getattr(itf, "procedure", None) is not None else list(getattr(itf, "routines", []))
+            out += [q for q in procs if hasattr(q, "uses") and str(q.name).lower() in wanted]
+        return out
+
+    def run(self, d: Path, files: list[Path], extra_mods=None, bodies=()):
+        # bodies: [host scope, name] of the interface bodies that are scopes of the generated project
+        body_names = {b[1] for b in bodies}
+        """Project over `files` in exactly this order (`extra_mods`: the project's own setting of that
+        name); returns observation dict."""
         fp, sf = self.fp, self.sf
         sf.namelist = sf.NameSelector()
         orig_find = fp.find_all_files
@@ -752,7 +963,8 @@ class Impl:
         order = []
 
         def logging_correlate(this, project):
-            if isinstance(this, (sf.FortranModule, sf.FortranProgram)):
+            if isinstance(this, (sf.FortranModule, sf.FortranProgram)) or (
+                    isinstance(this, sf.FortranProcedure) and getattr(this, "parobj", None) == "sourcefile"):
                 order.append(this.name.lower())
             return orig_corr(this, project)
 
@@ -762,7 +974,8 @@ class Impl:
             with common.quiet():
                 settings = self.Settings(src_dir=[d], preprocess=False, dbg=False, warn=False, quiet=True,
                                          graph=False, search=False, incl_src=False,
-                                         display=["public", "protected", "private"], proc_internals=True)
+                                         display=["public", "protected", "private"], proc_internals=True,
+                                         extra_mods=dict(extra_mods or {}))
                 project = fp.Project(settings)
                 project.correlate()
         except Exception as e:  # noqa
@@ -770,13 +983,18 @@ class Impl:
         finally:
             fp.find_all_files = orig_find
             sf.FortranCodeUnit.correlate = orig_corr
-        obs = {"order": order, "tables": {}, "refs": {}, "uses": {}}
+        obs = {"order": order, "tables": {}, "refs": {}, "binds": {},
+               "exts": [str(m.name) for m in project.extModules],
+               "decl_names": {m.name.lower(): m.name for m in project.modules}}
         units = list(project.modules) + list(project.programs)
-        for m in project.modules:  # contained procedures with USE statements (named n<i>a / n<i>b)
+        units += [q for q in project.procedures if getattr(q, "parobj", None) == "sourcefile" and q.name.lower().startswith("n")]
+        for m in list(units):
+            # contained procedures with USE statements (named n<i>a / n<i>b)
             for r in m.routines:
                 if r.name.lower().startswith("n"):
                     units.append(r)
                     units += [q for q in r.routines if q.name.lower().startswith("n")]
+            units += self.bodies_of(m, {b[1] for b in bodies if b[0] == m.name.lower()})
         for sc in units:
             n = sc.name.lower()
             per = {}
@@ -789,12 +1007,32 @@ class Impl:
             for v in sc.variables:
                 if v.proto:
                     refs["var:" + v.name.lower()] = None if isinstance(v.proto[0], str) else self.ent(v.proto[0])
+            if n in body_names:  # typed dummy arguments of an interface body
+                for v in getattr(sc, "args", []):
+                    if getattr(v, "proto", None):
+                        refs["arg:" + v.name.lower()] = None if isinstance(v.proto[0], str) else self.ent(v.proto[0])
             for t in sc.types:
                 if t.extends is not None:
                     refs["ext:" + t.name.lower()] = None if isinstance(t.extends, str) else self.ent(t.extends)
             if hasattr(sc, "calls"):
-                refs["calls"] = sorted({("?" + c.lower()) if isinstance(c, str) else self.ent(c) for c in sc.calls})
+                # (a unit that was never correlated still holds the raw call chains: lists of names)
+                refs["calls"] = sorted({("?" + c.lower()) if isinstance(c, str) else self.ent(c) if hasattr(c, "name")
+                                        else "?" + str(c[-1] if isinstance(c, (list, tuple)) and c else c).lower()
+                                        for c in sc.calls})
             obs["refs"][n] = refs
+            # what every USE statement of the scope was bound to (`uses` after correlate: the "Uses" list of
+            # the page): a module of the project, or something else (external stub / unresolved name)
+            binds = set()
+            for m in getattr(sc, "uses", None) or ():
+                if isinstance(m, (list, tuple)):
+                    m = m[0]
+                if isinstance(m, str):
+                    binds.add("other:" + m.lower())
+                elif any(m is pm for pm in project.modules):
+                    binds.add("project:" + m.name.lower())
+                else:
+                    binds.add("other:" + str(getattr(m, "name", "?")).lower())
+            obs["binds"][n] = sorted(binds)
         return obs
 
 
@@ -831,6 +1069,25 @@ def detect_shared_dict_leak(impl, d: Path) -> bool:
         sub.rmdir()
 
 
+def detect_abstract_body_bound(impl, d: Path) -> bool:
+    """does `find_used_modules` reach the USE statements of an abstract interface body?  (replay of the
+    witness of C06-abstract-interface-body-use-unbound; decides the model variant `bindNsU`)"""
+    sub = d / "absprobe"
+    sub.mkdir(exist_ok=True)
+    f = sub / "probe.f90"
+    f.write_text("module absprobe_a\n  integer :: absprobe_v\nend module absprobe_a\n"
+                 "module absprobe_b\n  abstract interface\n    subroutine absprobe_s()\n      use absprobe_a\n"
+                 "    end subroutine absprobe_s\n  end interface\nend module absprobe_b\n")
+    try:
+        obs = impl.run(sub, [f], None, [["absprobe_b", "absprobe_s"]])
+        return "absprobe_v" in obs["tables"]["absprobe_s"][K_VAR]["all"]
+    except Exception:  # noqa
+        return False
+    finally:
+        f.unlink()
+        sub.rmdir()
+
+
 def mask(graph, tables):
     """On a tree with the shared-dict leak (see SHARED_DICT_LEAK): where a scope has a contained
     procedure with USE statements or locals, only its deepest procedure is observed for types,
@@ -844,8 +1101,11 @@ def mask(graph, tables):
     return out
 
 
-def expected_refs(graph, tabs):
-    """References resolve through the scope's name tables (`tabs`: single-valued)."""
+def expected_refs(graph, tabs, leak=None):
+    """References resolve through the scope's name tables (`tabs`: single-valued).
+    `leak` (defect emulation only): observed tables; a type name that the emulated USE statements of
+    an interface body do not provide is looked up in what the body's host was observed to know, as the
+    implementation does (host association into interface bodies is C07's subject, not judged here)."""
     out = {}
     hosts = {n["host"] for n in graph.get("nested", [])} if SHARED_DICT_LEAK else set()
     for s in graph["scopes"] + graph.get("nested", []):
@@ -854,6 +1114,11 @@ def expected_refs(graph, tabs):
             if d["ref"]:
                 key = ("var:" if d["kind"] == K_VAR else "ext:") + d["name"]
                 refs[key] = tabs[s["name"]][K_TYPE]["all"].get(d["ref"])
+        for q, t in enumerate(s.get("argrefs", [])):
+            e = tabs[s["name"]][K_TYPE]["all"].get(t)
+            if e is None and leak is not None and s.get("host") in leak:
+                e = leak[s["host"]].get(K_TYPE, leak[s["host"]].get(str(K_TYPE), {})).get("all", {}).get(t)
+            refs[f"arg:x{q}"] = e
         if not s["is_mod"]:
             calls = set()
             for c in s["calls"]:
@@ -864,6 +1129,22 @@ def expected_refs(graph, tabs):
             refs = {k: v for k, v in refs.items() if k == "calls"}
         out[s["name"]] = refs
     return out
+
+
+def expected_binds(graph, sw=frozenset()):
+    """{scope: sorted set of "project:<module>" / "other:<name>"}: what each scope's USE statements
+    refer to by the standard (`refers_to_project`)"""
+    mods = {s["name"] for s in graph["scopes"] if s["is_mod"]}
+    out = {}
+    for s in graph["scopes"] + graph.get("nested", []):
+        unbound = s.get("ibody") == "abstract" and F_ABSUSE in sw  # (defect emulation: never looked up)
+        out[s["name"]] = sorted({("project:" if refers_to_project(u, mods, sw) and not unbound else "other:") + u["mod"]
+                                 for u in s["uses"]})
+    return out
+
+
+def binds_of(graph, obs_binds):
+    return {s["name"]: obs_binds.get(s["name"], []) for s in graph["scopes"] + graph.get("nested", [])}
 
 
 def refs_of(graph, obs_refs):
@@ -910,16 +1191,19 @@ def is_topo(graph, order):
         return False
     for s in graph["scopes"]:
         for u in s["uses"]:
-            if u["mod"] in mods and u["mod"] != s["name"] and pos[u["mod"]] > pos[s["name"]]:
+            if refers_to_project(u, mods) and u["mod"] != s["name"] and pos[u["mod"]] > pos[s["name"]]:
                 return False
     # the USE statements of contained procedures count as dependencies of their root (model `isTopoN`)
     by = {n["name"]: n for n in graph.get("nested", [])}
     for n in graph.get("nested", []):
+        if n.get("ibody") in ("generic", "abstract"):
+            # the known defect forms: whether the order matters is judged on the tables of the body
+            continue
         root = n["host"]
         while root in by:
             root = by[root]["host"]
         for u in n["uses"]:
-            if u["mod"] in mods and u["mod"] != root and pos[u["mod"]] > pos[root]:
+            if refers_to_project(u, mods) and u["mod"] != root and pos[u["mod"]] > pos[root]:
                 return False
     return True
 
@@ -991,6 +1275,43 @@ def micro_streams(impl, drv, rng, n, rep, hist, fixed=False):
     return len(reqs), bad
 
 
+def bind_stream(impl, drv, rng, n, rep, hist):
+    """the real `find_used_modules` on stand-in objects against the model's `bindName`: lists of
+    project modules and of external modules with duplicates, names that differ only in case, names
+    present in both lists (exact comparison of which candidate the USE ends up bound to)"""
+    fp = impl.fp
+    pool = [x.lower() for x in EXT_POOL[:2]] + ["a", "b1", "mod_x"]
+
+    def variant(nm):
+        return rnd_case(rng, nm)
+
+    reqs, exp = [], []
+    for i in range(n):
+        mods = [types.SimpleNamespace(name=variant(rng.choice(pool)), where="p") for _ in range(rng.randint(0, 4))]
+        exts = [types.SimpleNamespace(name=variant(rng.choice(pool)), where="e") for _ in range(rng.randint(0, 5))]
+        name = variant(rng.choice(pool))
+        ent = types.SimpleNamespace(uses=[[name, ""]], routines=[], interfaces=[])
+        try:
+            fp.find_used_modules(ent, mods, [], exts)
+            b = ent.uses[0][0]
+            e = ["ok", "u" if isinstance(b, str) else f"{b.where}:{b.name}"]
+        except Exception as ex:  # noqa
+            e = ["raised", type(ex).__name__]
+        both = {m.name.lower() for m in mods} & {x.name.lower() for x in exts}
+        key = "bind:" + ("name-in-both-lists" if name.lower() in both else e[1][0] if e[0] == "ok" else "raised")
+        hist[key] = hist.get(key, 0) + 1
+        reqs.append(["c06.bind", name, " ".join(m.name for m in mods), " ".join(x.name for x in exts)])
+        exp.append(e)
+    got = drv.batch(reqs)
+    bad = 0
+    for r, e, g in zip(reqs, exp, got):
+        if e != g:
+            bad += 1
+            rep.tie_broken(f"correspondence micro/c06.bind: model {g} vs implementation {e} on {r[1:]!r}",
+                           {"stream": "micro", "request": r, "impl": e, "model": g})
+    return len(reqs), bad
+
+
 # --------------------------------------------------------------------------
 # one graph case
 # --------------------------------------------------------------------------
@@ -1001,11 +1322,17 @@ def prepare(rng, graph):
     # module names are permuted so that alphabetical order (toposort's tie-break) is unrelated
     # to the dependency order
     mods = [s["name"] for s in graph["scopes"] if s["is_mod"]]
-    shuffled = list(mods)
-    rng.shuffle(shuffled)
-    ren = dict(zip(mods, shuffled))
+    if graph.get("final_names"):
+        ren = dict(graph["final_names"])  # decided by gen_graph (USE forms depend on the names)
+    else:
+        shuffled = list(mods)
+        rng.shuffle(shuffled)
+        ren = dict(zip(mods, shuffled))
     for s in graph["scopes"] + graph.get("nested", []):
         s["name"] = ren.get(s["name"], s["name"])
+        if s["is_mod"]:
+            # spelling of the name in the MODULE statement (FORD keeps it; names are compared lower-cased)
+            s["decl_name"] = rnd_case(rng, s["name"])
         if s.get("host"):
             s["host"] = ren.get(s["host"], s["host"])
         for u in s["uses"]:
@@ -1024,6 +1351,25 @@ def prepare(rng, graph):
     return files
 
 
+def without_host_leak(graph, got, exp):
+    """The body of an interface block has no host association (without IMPORT); whether FORD gives it
+    the host's names anyway is the business of the scoping property (C07), not of USE association.
+    So an entry of such a body's table that `exp` does not ask for AND that is the very entry of
+    its host's table is not judged here; everything else (what the USE statements must give,
+    anything spurious) is."""
+    out = dict(got)
+    for s in graph.get("nested", []):
+        n, h = s["name"], s.get("host")
+        if not s.get("ibody") or n not in got or h not in got:
+            continue
+        out[n] = {}
+        for k, t in got[n].items():
+            e = (exp.get(n) or {}).get(int(k), {}).get("all", {})
+            hostt = got[h].get(k, {}).get("all", {})
+            out[n][k] = {"all": {nm: v for nm, v in t["all"].items() if nm in e or hostt.get(nm) != v}, "pub": t["pub"]}
+    return out
+
+
 def oracle_case(graph, obs):
     """Property oracle on the implementation's observation.
     returns (status, why, finding_ids): status in ok / clash / fail"""
@@ -1031,9 +1377,17 @@ def oracle_case(graph, obs):
     if has_clash(strict, graph):
         return "clash", None, []
     exp = single(strict)
-    got = mask(graph, obs["tables"])
+    got_raw = mask(graph, obs["tables"])
+    got = without_host_leak(graph, got_raw, exp)
     got_refs = refs_of(graph, obs["refs"])
+    got_binds = binds_of(graph, obs["binds"]) if "binds" in obs else None
     why = diff_tables(mask(graph, exp), got)
+    if why is None and got_binds is not None:
+        eb = expected_binds(graph)
+        for n in eb:
+            if eb[n] != got_binds[n]:
+                why = f"scope {n}: USE statements refer to {eb[n]} but were bound to {got_binds[n]}"
+                break
     if why is None:
         er = expected_refs(graph, exp)
         if er != got_refs:
@@ -1051,12 +1405,15 @@ def oracle_case(graph, obs):
     # classes that explains the observation completely (largest first)
     for size in range(len(feats), 0, -1):
         for sub in itertools.combinations(feats, size):
-            e2 = single(spec_tables(graph, frozenset(sub)))
-            if diff_tables(mask(graph, e2), got) is None and expected_refs(graph, e2) == got_refs:
+            e2 = single(spec_tables(graph, frozenset(sub), obs.get("order")))
+            if diff_tables(mask(graph, e2), without_host_leak(graph, got_raw, e2)) is None \
+                    and expected_refs(graph, e2, got_raw) == got_refs \
+                    and (got_binds is None or expected_binds(graph, frozenset(sub)) == got_binds):
                 blamed = []
                 for f in sub:
-                    less = single(spec_tables(graph, frozenset(set(sub) - {f})))
-                    if diff_tables(less, e2) is not None or expected_refs(graph, less) != expected_refs(graph, e2):
+                    less = single(spec_tables(graph, frozenset(set(sub) - {f}), obs.get("order")))
+                    if diff_tables(less, e2) is not None or expected_refs(graph, less, got_raw) != expected_refs(graph, e2, got_raw) \
+                            or expected_binds(graph, frozenset(set(sub) - {f})) != expected_binds(graph, frozenset(sub)):
                         blamed.append(f)
                 return "fail", why, blamed or list(sub)
     return "fail", why, [None]
@@ -1078,6 +1435,14 @@ def run(tier: str, seed: int, replay: str | None = None) -> int:
     fixed = detect_variant(impl)
     hist["variant:" + ("repaired-rename" if fixed else "as-is")] = 1
     ev_micro, bad_micro = micro_streams(impl, drv, rng, n_micro, rep, hist, fixed)
+    global EXT_POOL
+    try:  # names of the ExternalModule stubs every project of the working tree gets
+        EXT_POOL = [str(k).lower() for k in impl.Settings().extra_mods] or list(STD_INTRINSIC)
+    except Exception:  # noqa
+        EXT_POOL = list(STD_INTRINSIC)
+    ev_bind, bad_bind = bind_stream(impl, drv, rng, n_micro, rep, hist)
+    ev_micro += ev_bind
+    bad_micro += bad_bind
 
     graphs = []
     if replay:
@@ -1096,6 +1461,8 @@ def run(tier: str, seed: int, replay: str | None = None) -> int:
     with common.scratch_dir() as d:
         global SHARED_DICT_LEAK
         SHARED_DICT_LEAK = detect_shared_dict_leak(impl, d)
+        abs_bound = detect_abstract_body_bound(impl, d)
+        hist["abstract-interface-body-use:" + ("bound (repaired)" if abs_bound else "left unbound (as-is)")] = 1
         hist["host-tables:" + ("masked (shared-dict leak present)" if SHARED_DICT_LEAK else "observed")] = 1
         for gi, g in enumerate(graphs):
             files = g["files"] if fixed_files and "files" in g else prepare(rng, g)
@@ -1120,7 +1487,7 @@ def run(tier: str, seed: int, replay: str | None = None) -> int:
                 orders.append(o2)
             first = None
             for oi, o in enumerate(orders):
-                obs = impl.run(sub, o)
+                obs = impl.run(sub, o, g.get("extra_mods"), [[x["host"], x["name"]] for x in g.get("nested", []) if x.get("ibody")])
                 n_runs += 1
                 if "error" in obs:
                     rep.failing_input({"stream": "graph", "graph": g, "file_order": [p.name for p in o],
@@ -1134,7 +1501,8 @@ def run(tier: str, seed: int, replay: str | None = None) -> int:
                 if first is None:
                     first = obs
                 else:
-                    w = diff_tables(first["tables"], obs["tables"]) or (None if first["refs"] == obs["refs"] else "resolved references differ")
+                    w = diff_tables(first["tables"], obs["tables"]) or (None if first["refs"] == obs["refs"] else "resolved references differ") \
+                        or (None if first["binds"] == obs["binds"] else "modules the USE statements are bound to differ")
                     if w:
                         n_oracle_fail += 1
                         rep.failing_input({"stream": "graph", "graph": g,
@@ -1146,10 +1514,16 @@ def run(tier: str, seed: int, replay: str | None = None) -> int:
         reqs = []
         for g, obs in zip(graphs, impl_obs):
             order = obs["order"] if obs and "order" in obs else [s["name"] for s in g["scopes"]]
+            # module names as the MODULE statements spell them; the model's `bindG` is what makes the
+            # (lower-cased) names in the USE statements meet them
+            decl = {s["name"]: s.get("decl_name", s["name"]) for s in g["scopes"]}
+            exts = obs["exts"] if obs and "exts" in obs else EXT_POOL + list(g.get("extra_mods") or {})
             fields = []
             for s in g["scopes"] + g.get("nested", []):
-                fields += model_fields(s)
-            reqs.append(["c06.runnfixed" if fixed else "c06.runn", " ".join(order), nested_spec(g)] + fields)
+                fields += model_fields(s, decl)
+            unreached = [] if abs_bound else [x["name"] for x in g.get("nested", []) if x.get("ibody") == "abstract"]
+            reqs.append(["c06.runbfixed" if fixed else "c06.runb", " ".join(decl.get(n, n) for n in order),
+                         nested_spec(g, decl), " ".join(exts), " ".join(unreached)] + fields)
         model = drv.batch(reqs)
         for g, obs, mo in zip(graphs, impl_obs, model):
             if obs is None or "error" in obs:
@@ -1176,7 +1550,8 @@ def run(tier: str, seed: int, replay: str | None = None) -> int:
             if status == "clash":
                 n_clash += 1
                 continue
-            nontrivial = any(u["mod"].startswith("m") for s in g["scopes"] for u in s["uses"])
+            pmods = {s["name"] for s in g["scopes"] if s["is_mod"]}
+            nontrivial = any(u["mod"] in pmods for s in g["scopes"] for u in s["uses"])
             if nontrivial:
                 distinct.add(common.digest([s["name"] for s in g["scopes"]] + [u["stmt"] for s in g["scopes"] for u in s["uses"]]
                                            + [g["files"]]))
@@ -1204,9 +1579,14 @@ def run(tier: str, seed: int, replay: str | None = None) -> int:
         input_histogram=dict(sorted(hist.items())),
     )
     rep.assumptions += [
-        "submodules, operator/assignment generics in only-lists, external/intrinsic modules are not modelled; unknown modules "
-        "are skipped like FORD does; contained procedures (module procedure + internal procedure) are modelled (`runN`) and "
-        "compared, contained procedures of programs and interface bodies are not generated",
+        "submodules, operator/assignment generics in only-lists, modules loaded from an external project (modules.json), block "
+        "data and IMPORT statements are not modelled or generated; the ExternalModule stubs of settings.extra_mods and the "
+        "binding step find_used_modules are modelled (`bindName`, `bindG`); contained procedures of modules, programs and "
+        "external subroutines and the bodies of unnamed / generic / abstract interface blocks are modelled (`runN`) and compared",
+        "an interface body has no host association; names FORD copies from the host into such a body are not judged here (C07) "
+        "unless the body's USE statements must provide that name",
+        "a USE with module nature INTRINSIC is generated only for the standard's intrinsic module names; one module nature per "
+        "(module or program with its contained scopes, used module)",
         "hiding of a host identifier by a local or use-associated entity of ANOTHER kind is outside the generator (FORD keeps one "
         "table per kind; hypothesis SameKindHiding of nested_tables_exact_partial)",
         "CPython re is on the implementation side only; the scanners are its deterministic reading, validated on the micro stream "
